@@ -56,10 +56,20 @@ Theorem C11_at_most_once : forall vr es s i b, run vr init es = Some s ->
 Proof. exact main_at_most_once. Qed.
 Print Assumptions C11_at_most_once.
 
-(* NOTHING IS DELIVERED AFTER CLOSE RETURNS: along every continuation no subscriber's received
-   sequence changes, and subscribers created afterwards receive nothing. *)
+(* EVERY CLOSE THAT RETURNS HAS WAITED FOR THE FORWARDERS.  Two overlapping Close calls are
+   modelled ([cl], [cl2]); whichever of them has returned — the first or the second, in whatever
+   order they got the lock — the broadcaster is closed and every subscriber's forwarder goroutine
+   has exited. *)
+Theorem C11_close_returned_exited : forall vr es s, run vr init es = Some s ->
+  cl s = CReturned \/ cl2 s = CReturned ->
+  closed s = true /\ forall i b, nth_error (subs s) i = Some b -> fwd b = Exited.
+Proof. exact main_close_returned_exited. Qed.
+Print Assumptions C11_close_returned_exited.
+
+(* NOTHING IS DELIVERED AFTER (ANY) CLOSE RETURNS: along every continuation no subscriber's
+   received sequence changes, and subscribers created afterwards receive nothing. *)
 Theorem C11_no_delivery_after_close : forall vr es s es' s', run vr init es = Some s ->
-  cl s = CReturned -> run vr s es' = Some s' ->
+  cl s = CReturned \/ cl2 s = CReturned -> run vr s es' = Some s' ->
   forall i b', nth_error (subs s') i = Some b' ->
     received b' = match nth_error (subs s) i with Some b => received b | None => [] end.
 Proof. exact main_no_delivery_after_close. Qed.
@@ -93,35 +103,43 @@ Theorem C11_internal_terminates : forall vr s e s', internal e = true -> step vr
 Proof. exact main_internal_decreases. Qed.
 Print Assumptions C11_internal_terminates.
 
-(* CLOSE NEVER WEDGES, on the fixed Close: once Close has been called, whenever a call is pending
-   some internal step is enabled — not even a live stalled subscriber holds anything up. *)
+(* CLOSE NEVER WEDGES, on the fixed Close: once Close has been called (by either caller),
+   whenever a call is pending some internal step is enabled — not even a live stalled subscriber
+   holds anything up. *)
 Theorem C11_close_no_wedge : forall es s, run Fixed init es = Some s ->
-  cl s <> CNone -> call_pending s ->
+  cl s <> CNone \/ cl2 s <> CNone -> call_pending s ->
   exists e, internal e = true /\ step Fixed s e <> None.
 Proof. exact main_close_no_wedge. Qed.
 Print Assumptions C11_close_no_wedge.
 
 (* ... hence after at most [measure s] internal steps, with no help from the environment, no call
-   is pending any more and Close has returned. *)
-Theorem C11_close_completes : forall es s, run Fixed init es = Some s -> cl s <> CNone ->
-  exists k s', (k <= Model.measure s)%nat /\ s' = quiesce_fuel k Fixed s /\
-               ~ call_pending s' /\ cl s' = CReturned.
+   is pending any more and EVERY Close call that was issued has returned. *)
+Theorem C11_close_completes : forall es s, run Fixed init es = Some s ->
+  cl s <> CNone \/ cl2 s <> CNone ->
+  exists k s', (k <= Model.measure s)%nat /\ s' = quiesce_fuel k Fixed s /\ ~ call_pending s' /\
+               (cl s <> CNone -> cl s' = CReturned) /\ (cl2 s <> CNone -> cl2 s' = CReturned).
 Proof. exact main_close_completes. Qed.
 Print Assumptions C11_close_completes.
 
 (* THE DEFECT (Close before the fix).  After: one subscriber that never reads, twelve Broadcasts,
    Close — Close waits for the lock, the twelfth Broadcast holds it and waits for closeCh (still
    open: it is only closed under that lock), no internal step is enabled, and it stays so
-   whatever further Broadcast / Subscribe calls are issued and whatever internal steps are tried,
-   as long as nobody reads or cancels. *)
+   whatever further Broadcast / Subscribe / second Close calls are issued and whatever internal
+   steps are tried, as long as nobody reads or cancels: neither Close call ever returns. *)
 Theorem C11_close_wedge_refuted : exists s, run Original init wedge_schedule = Some s /\
   cl s = CWantLock /\ (exists v idx, lock s = Held v idx) /\ closed s = false /\ stuck Original s /\
-  (forall es' s', Forall (fun e => match e with BcCall _ | SubCall _ _ => True
+  (forall es' s', Forall (fun e => match e with BcCall _ | SubCall _ _ | Close2Call | CancelPending _ => True
                                    | _ => internal e = true end) es' ->
                   run Original s es' = Some s' ->
-                  cl s' = CWantLock /\ (exists v idx, lock s' = Held v idx)).
+                  cl s' = CWantLock /\ cl2 s' <> CReturned /\ (exists v idx, lock s' = Held v idx)).
 Proof. exact main_close_wedge_refuted. Qed.
 Print Assumptions C11_close_wedge_refuted.
+
+(* ... with a second Close piled on top: both wait for the lock, nothing is enabled. *)
+Theorem C11_close2_wedge_refuted : exists s, run Original init wedge2_schedule = Some s /\
+  cl s = CWantLock /\ cl2 s = CWantLock /\ (exists v idx, lock s = Held v idx) /\ stuck Original s.
+Proof. exact main_close2_wedge_refuted. Qed.
+Print Assumptions C11_close2_wedge_refuted.
 
 (* The same defect as the checker sees it: for the script "subscribe a consumer that never reads;
    Broadcast x 12; Close" the Original model predicts that the calls of steps 12 (Broadcast) and
@@ -176,3 +194,13 @@ Print Assumptions C11_conc_oracle_sound.
 Theorem C11_rush_oracle_sound : forall late, rush_oracle late = true <-> rush_spec late.
 Proof. exact rush_oracle_sound. Qed.
 Print Assumptions C11_rush_oracle_sound.
+
+Theorem C11_conc_close_oracle_sound : forall calls seqs closes,
+  (exists w, cc_oracle calls seqs closes w = true) <-> cc_spec calls seqs closes.
+Proof. exact cc_oracle_sound. Qed.
+Print Assumptions C11_conc_close_oracle_sound.
+
+Theorem C11_dup_oracle_sound : forall k nb leave shared other,
+  dup_oracle k nb leave shared other = true <-> dup_spec k nb leave shared other.
+Proof. exact dup_oracle_sound. Qed.
+Print Assumptions C11_dup_oracle_sound.
